@@ -2,8 +2,12 @@
 
 PROPS = {
     "C11": dict(
-        units=["GenPartitions"],
+        units=["GenPartitions", "GenBuffer"],
         genextract="Partitions",
+        trusted_extra=["float_ceil_division_exact (and only it) depends on the standard library's real-number axioms through Flocq: "
+                       "ClassicalDedekindReals.sig_forall_dec, ClassicalDedekindReals.sig_not_dec, "
+                       "FunctionalExtensionality.functional_extensionality_dep, Classical_Prop.classic",
+                       "translator/buf2coq.py (core.BufferedArray -> Gen/GenBuffer.v)"],
         props_files=["Props/C11.v"],
         driver="c11",
         rule="bounded-exhaustive box of (num_records, chunk_size, num_partitions, max_chunks) plus random large tuples "
@@ -12,7 +16,7 @@ PROPS = {
         "chunk or a cap that bites",
         status="full (for all nr, cs, np >= 1 and any cap >= 1, over the translated source; nr < 2^53 for the float ceil)",
         assumptions=[
-            "int(np.ceil(a / b)) equals exact ceiling division for a < 2^53 (validated differentially, incl. boundary values)",
+            "CPython's int / int is the correctly rounded binary64 quotient (its ceiling is then the exact ceiling for operands below 2^53: theorem float_ceil_division_exact)",
             "np.array_split(np.arange(n), k) yields k sections, the first n mod k of size n//k+1 (validated differentially)",
         ],
     ),
@@ -196,7 +200,8 @@ PROPS = {
                      "zarr writes a chunk as temp file + replace; consolidate_metadata writes .zmetadata last"],
     ),
     "C01": dict(
-        units=[],
+        units=["GenBuffer"],
+        trusted_extra=["translator/buf2coq.py (core.BufferedArray and the flush helpers -> Gen/GenBuffer.v)"],
         props_files=["Props/C01.v"],
         driver="c01",
         rule="abstract VCFs from the generator (all Type x Number, missingness patterns, boundary values, +-inf, denormals, mixed "
@@ -204,8 +209,9 @@ PROPS = {
         "bcf+csi} x chunk sizes through convert; every array vs Model.Spec.spec_encode of the abstract file; variants compared with "
         "each other; contigs / filters / samples / header carried over. distinct = distinct (file, container, index); non-trivial = "
         "at least one INFO or FORMAT field",
-        status="full on the model: row encoders are lossless (vec_roundtrip) and the pipeline writes enc(values[i]) at row i for any "
-        "partitioning and order (pipeline_rows); VCF text -> cyvcf2 values (htslib) sits between the abstract VCF and the first modelled "
+        status="full on the model, for the whole store: decode_store (spec_encode h recs) = records_view h (sort recs) (spec_roundtrip); the "
+        "pipeline writes enc(values[i]) at row i for any partitioning and order (pipeline_rows) through a chunk buffer that is the "
+        "translated core.BufferedArray (translated_buffer_is_the_model); VCF text -> cyvcf2 values (htslib) sits between the abstract VCF and the first modelled "
         "function and is covered by the differential run only",
         assumptions=["htslib/cyvcf2 parse the generated text into the typed values the generator intended (detected, not proved)",
                      "phasing of calls with fewer than two alleles is not determined by the input (F8: cyvcf2 reports an indeterminate bit)"],
